@@ -9,6 +9,8 @@
   interpreter is restated over an allocation policy `Alloc`, so that
 
   * `counterAlloc` gives back `V1Interp` literally (`Lemmas/V1Uid.lean`: `computeNextStepsU_counter`), and
+  * `injAlloc g` (any injective naming `g` of the counter — uuid4) decides exactly like `V1Interp` and reaches the same states up to
+    the renaming `mapSt g` (`Lemmas/V1Uid.lean`: `computeNextSteps_inj`, `replay_map`): only FRESHNESS matters, not the names;
   * `siteAlloc` is the policy "uid of a subflow instance = function of (uid of the caller, position of the `do`)"
     (`uid=f"{flow_state.uid}/{flow_state.head}"`): injective in the call SITE, but the same for every execution of one
     `do` element by one caller instance.
@@ -44,6 +46,14 @@ def SITE_W : Nat := 4096
     (caller uid, head) — injectively for heads below `SITE_W` (`siteAlloc_injective`), like the formatted string -/
 def siteAlloc : Alloc :=
   { flow := fun c => 2 * c, sub := fun _ caller => 2 * (caller.uid * SITE_W + caller.head.toNat) + 1 }
+
+/-- `new_uuid()` as ANY never-repeating naming `g` of the allocation counter (uuid4: the names are not numbers in order) -/
+def injAlloc (g : Nat → Nat) : Alloc := { flow := g, sub := fun c _ => g c }
+
+/-- a flow state / state with every uid renamed by `g` (the uid itself, `interrupted_by`, `next_step_by_flow_uid`) -/
+def mapFS (g : Nat → Nat) (fs : FS) : FS := { fs with uid := g fs.uid, interruptedBy := fs.interruptedBy.map g }
+def mapNext (g : Nat → Nat) (n : NextStep) : NextStep := { n with uid := g n.uid }
+def mapSt (g : Nat → Nat) (st : State) : State := { st with flows := st.flows.map (mapFS g), next := st.next.map (mapNext g) }
 
 /-- `_slide_with_subflows` + `_call_subflow` (text of `V1Interp.slideWithSubflows`) -/
 def slideWithSubflowsU (al : Alloc) (repaired : Bool) : Nat → Cfgs → State → FS → Except Err (State × FS)
